@@ -257,6 +257,9 @@ func c11Policy(c *Ctx) {
 		// loop bound
 		hdr, _, _ := loopOverLen(fn, func(os []string) bool { return hasAll(os, "field:FailoverGroup.stores") })
 		if hdr == nil {
+			hdr = loopCountdownFromLen(fn, func(os []string) bool { return hasAll(os, "field:FailoverGroup.stores") })
+		}
+		if hdr == nil {
 			bad = append(bad, "the attempt loop is not bounded by len(g.stores)")
 		} else {
 			for _, call := range calls(fn, named("(desync.Store).GetChunk", "(desync.Store).HasChunk")) {
